@@ -489,3 +489,94 @@ Definition ops3 (ta tb tc : arith) : list (string * arith) := [("?a", ta); ("?b"
 
 
 Local Close Scope string_scope.
+
+(** ** the repaired conversion (patches/0001-fix-to_arith-mixed-extension-chain.diff)
+
+    [Cur] = [to_arith] as shipped (above); [Fix] = with the patch: [remove_ext] strips only a run
+    of extensions of ONE kind, and an extension that is visited as a node (the root, or the top of
+    a run of the other kind below a stripped run) is converted to [ext(x) + 0] at its width. *)
+
+Inductive variant : Type := Cur | Fix.
+
+(** patched [strip_ext] *)
+Fixpoint strip_kind (s : bool) (e : expr) : expr :=
+  match e with
+  | BVZeroExt e' _ _ => if s then e else strip_kind s e'
+  | BVSignExt e' _ _ => if s then strip_kind s e' else e
+  | _ => e
+  end.
+
+(** patched [remove_ext]: (operand without the run of its outermost kind, that kind) *)
+Definition remove_ext_fix (e : expr) : expr * bool := (strip_kind (ext_sign e) e, ext_sign e).
+
+Definition convert_bin_op_fix (op : binop) (a b : expr) (width_out : N) (ca cb : res arith) : res arith :=
+  ca' <- ca ;; cb' <- cb ;;
+  let '(base_a, sign_a) := remove_ext_fix a in
+  let '(base_b, sign_b) := remove_ext_fix b in
+  match type_of base_a, type_of base_b, type_of a, type_of b with
+  | TBV width_a, TBV width_b, TBV ta, TBV tb =>
+      if negb ((width_out =? ta) && (width_out =? tb)) then Panic     (* debug_assert_eq! *)
+      else Ok (ABin op (AWidth width_out) (AWidth width_a) (ASign sign_a) ca'
+                       (AWidth width_b) (ASign sign_b) cb')
+  | _, _, _, _ => Panic
+  end.
+
+(** the new match arm for an extension node [e] of stored width [w]; [c] = its converted child *)
+Definition convert_ext_node (e : expr) (w : N) (c : res arith) : res arith :=
+  c' <- c ;;
+  let '(base, sign) := remove_ext_fix e in
+  match type_of base with
+  | TBV width_base =>
+      Ok (ABin OAdd (AWidth w) (AWidth width_base) (ASign sign) c' (AWidth 1) (ASign false) (AConst 0))
+  | TArr _ _ => Panic
+  end.
+
+(** [convf m e] = the result of the patched traversal started at the node
+    [match m with None => e | Some s => strip_kind s e end]: mode [Some s] absorbs extensions of
+    kind [s] (they were stripped by the parent), any other extension is visited as a node. *)
+Fixpoint convf (m : option bool) (e : expr) : res arith :=
+  match e with
+  | BVZeroExt e' _ w =>
+      match m with
+      | Some false => convf m e'
+      | _ => convert_ext_node e w (convf (Some false) e')
+      end
+  | BVSignExt e' _ w =>
+      match m with
+      | Some true => convf m e'
+      | _ => convert_ext_node e w (convf (Some true) e')
+      end
+  | BVSymbol name _ => Ok (ASymbol name)
+  | BVAdd a b w => convert_bin_op_fix OAdd a b w (convf (Some (ext_sign a)) a) (convf (Some (ext_sign b)) b)
+  | BVSub a b w => convert_bin_op_fix OSub a b w (convf (Some (ext_sign a)) a) (convf (Some (ext_sign b)) b)
+  | BVMul a b w => convert_bin_op_fix OMul a b w (convf (Some (ext_sign a)) a) (convf (Some (ext_sign b)) b)
+  | BVShiftLeft a b w => convert_bin_op_fix OShl a b w (convf (Some (ext_sign a)) a) (convf (Some (ext_sign b)) b)
+  | BVShiftRight a b w => convert_bin_op_fix OLshr a b w (convf (Some (ext_sign a)) a) (convf (Some (ext_sign b)) b)
+  | BVArithmeticShiftRight a b w =>
+      convert_bin_op_fix OAshr a b w (convf (Some (ext_sign a)) a) (convf (Some (ext_sign b)) b)
+  | _ => Panic                                            (* todo!(..) *)
+  end.
+
+Definition to_arith_v (v : variant) (e : expr) : res arith :=
+  match v with Cur => to_arith e | Fix => convf None e end.
+
+Definition roundtrip_v (v : variant) (e : expr) : res expr := t <- to_arith_v v e ;; from_arith 0 t.
+
+(** the domain of the round trip of the repaired code: add/sub/mul/shifts over symbols under ANY
+    extensions, every stored width a u32, not a bare symbol (rooted at an operation or an extension) *)
+Fixpoint frag_fix (e : expr) : bool :=
+  match e with
+  | BVZeroExt e' _ w | BVSignExt e' _ w => (w <=? u32_max) && frag_fix e'
+  | BVSymbol _ w => w <=? u32_max
+  | BVAdd a b w | BVSub a b w | BVMul a b w | BVShiftLeft a b w | BVShiftRight a b w
+  | BVArithmeticShiftRight a b w => (w <=? u32_max) && frag_fix a && frag_fix b
+  | _ => false
+  end.
+
+Definition is_bv_symbol (e : expr) : bool := match e with BVSymbol _ _ => true | _ => false end.
+
+Definition convertible_fix (e : expr) : bool := negb (is_bv_symbol e) && frag_fix e.
+
+(** the domain in which the property is claimed, per variant of the code *)
+Definition roundtrip_domain (v : variant) (e : expr) : bool :=
+  match v with Cur => convertible_shape e | Fix => convertible_fix e end.
